@@ -139,6 +139,7 @@ package sourcebundle
 //@   ensures C08.find.frame: b.pendingRemote == old(b.pendingRemote) && b.pendingRegistry == old(b.pendingRegistry) && b.targetDir == old(b.targetDir) && b.analyzed == old(b.analyzed)
 //@       && b.remotePackageDirs == old(b.remotePackageDirs) && b.registryPackageVersions == old(b.registryPackageVersions) && b.resolvedRegistry == old(b.resolvedRegistry) && b.packageVersionDeprecations == old(b.packageVersionDeprecations) && b.remotePackageMeta == old(b.remotePackageMeta)
 //@   ensures C14.find.bracket: $evStart == $evEnd
+//@   ensures C14.find.analysed-kept: oldheap(mapHas(b.analyzed, skolem("A", "sourcebundle.remoteArtifact"))) ==> mapHas(b.analyzed, skolem("A", "sourcebundle.remoteArtifact"))
 //@   invariant loop1 C17.find.deprecation.inv: versionDeprecation == nil && rangeindex < len(availablePackageInfos)
 //@       && (0 <= anyIndex && anyIndex <= rangeindex ==> !sameVersion(selectedVersion, availablePackageInfos[anyIndex].Version))
 //@   ensures-local C17.find.deprecation: err == nil && !oldheap(mapHas(b.resolvedRegistry, pkgVer)) ==>
@@ -174,6 +175,7 @@ package sourcebundle
 //@   ensures C14.ensure.bracket: $evStart == $evEnd
 //@   ensures C08.ensure.frame: b.pendingRemote == old(b.pendingRemote) && b.pendingRegistry == old(b.pendingRegistry) && b.targetDir == old(b.targetDir) && b.analyzed == old(b.analyzed)
 //@       && b.remotePackageDirs == old(b.remotePackageDirs) && b.registryPackageVersions == old(b.registryPackageVersions) && b.resolvedRegistry == old(b.resolvedRegistry) && b.packageVersionDeprecations == old(b.packageVersionDeprecations) && b.remotePackageMeta == old(b.remotePackageMeta)
+//@   ensures C14.ensure.analysed-kept: oldheap(mapHas(b.analyzed, skolem("A", "sourcebundle.remoteArtifact"))) ==> mapHas(b.analyzed, skolem("A", "sourcebundle.remoteArtifact"))
 //@   ensures C14.ensure.fetched-once: !old(mapHas(b.remotePackageDirs, pkgAddr)) && err == nil ==> $nFetch == 1 && $evStart == 1
 //@   ensures-local C10.ensure.no-temp-left: err == nil && !old(mapHas(b.remotePackageDirs, pkgAddr)) ==> ($lastRemoved == workDir || $lastRenamedFrom == workDir) && workDir != ""
 //@   ensures-local C10,C13.ensure.dirname-is-content-hash: err == nil && !old(mapHas(b.remotePackageDirs, pkgAddr)) ==> localDir == b64UrlOfStd(trimPrefix(hashDirOf(workDir), "h1:")) && safeSeg(localDir)
@@ -195,7 +197,13 @@ package sourcebundle
 //@   invariant loop2 C08.resolve.inv.registry: builderOpen(b) && isAbs(b.targetDir) && Clean(b.targetDir) == b.targetDir
 //@   invariant loop3 C08.resolve.inv.remote: builderOpen(b) && isAbs(b.targetDir) && Clean(b.targetDir) == b.targetDir
 //@   ghost $nAnalyze Int = 0
-//@   ghost $tracedDiags Slice = nil
+// an artifact that has been handed to its dependency finder is recorded as analysed before the next one is taken
+// (whatever the finder reported), so it is never analysed again
+//@   ghost $analysedA Bool = false
+//@   set-at-call invoke github.com/hashicorp/go-slug/sourcebundle.DependencyFinder.FindDependencies upd: $analysedA = $analysedA || artifact == skolem("A", "sourcebundle.remoteArtifact")
+//@   invariant loop1 C14.resolve.analysed-is-recorded.outer: $analysedA ==> mapHas(b.analyzed, skolem("A", "sourcebundle.remoteArtifact"))
+//@   invariant loop2 C14.resolve.analysed-is-recorded.registry: $analysedA ==> mapHas(b.analyzed, skolem("A", "sourcebundle.remoteArtifact"))
+//@   invariant loop3 C14.resolve.analysed-is-recorded: $analysedA ==> mapHas(b.analyzed, skolem("A", "sourcebundle.remoteArtifact"))
 //@   ensures C08,C12.resolve.drained: len(b.pendingRemote) == 0 && len(b.pendingRegistry) == 0
 //@   ensures C12.resolve.poison: hasErrorsOf(diags) ==> b.targetDir == ""
 //@   at-call append#1 C12.resolve.registry-failure-becomes-diag: dyntype(a1, "*sourcebundle.internalDiagnostic") && unbox(a1, "*sourcebundle.internalDiagnostic").severity == DiagError
